@@ -166,6 +166,11 @@ class ExcelType:
     def __hash__(self):
         return hash(self.value)
 
+    def __reduce__(self):
+        # Values are created through __new__(cls, value) and live in a slot:
+        # tell pickle, copy and jsonpickle how to rebuild them.
+        return (self.__class__, (self.value,))
+
     def __repr__(self):
         return f'<{self.__class__.__name__} {repr(self.value)}>'
 
